@@ -185,3 +185,13 @@ package tx_pool
 //@     invariant 0 <= iter && p != nil && txR.txFetcher != nil && txR.Logger != nil
 //@   loop 3:
 //@     invariant 0 <= iter && p != nil && txR.txFetcher != nil && txR.Logger != nil
+
+// Demoting a pending transaction moves it between the pool's lists only: it is already in the lookup set
+// (and, if remote, on the price heap), so it must not be added there again.
+//@ func (pool *TxPool) demoteUnexecutables()
+//@   for C17
+//@   requires pool != nil
+//@   modifies *
+//@   opt assumecallreqs
+//@   opt noinline
+//@   atcall TxPool.enqueueTx requires [internalShuffleLeavesTheLookupAlone] !addAll && !local
